@@ -1,9 +1,12 @@
 #!/bin/bash
-# build the OCaml drivers for the extracted code into /verif/build/bin
+# build the OCaml drivers for the extracted code into /verif/build/bin (each driver is linked under a private name and
+# moved into place, so a check that runs at the same time never executes a half-written file)
 set -e
 B=/verif/build/ocaml; mkdir -p $B /verif/build/bin
 cp /verif/coq/Extract/ocaml/*.ml /verif/coq/Extract/ocaml/*.mli /verif/ocaml/*.ml $B/ 2>/dev/null
 cd $B
-ocamlfind ocamlopt -O3 -w -a gen.mli gen.ml zconv.ml gendriver.ml -o /verif/build/bin/gendriver 2>/dev/null || ocamlfind ocamlopt -w -a gen.mli gen.ml zconv.ml gendriver.ml -o /verif/build/bin/gendriver
-if [ -f sched.ml ]; then ocamlfind ocamlopt -w -a sched.mli sched.ml zconvs.ml scheddriver.ml -o /verif/build/bin/scheddriver; fi
-if [ -f misc.ml ]; then ocamlfind ocamlopt -w -a misc.mli misc.ml miscdriver.ml -o /verif/build/bin/miscdriver; fi
+T=/verif/build/bin/.new$$
+ocamlfind ocamlopt -O3 -w -a gen.mli gen.ml zconv.ml gendriver.ml -o $T.gendriver 2>/dev/null || ocamlfind ocamlopt -w -a gen.mli gen.ml zconv.ml gendriver.ml -o $T.gendriver
+mv -f $T.gendriver /verif/build/bin/gendriver
+if [ -f sched.ml ]; then ocamlfind ocamlopt -w -a sched.mli sched.ml zconvs.ml scheddriver.ml -o $T.scheddriver; mv -f $T.scheddriver /verif/build/bin/scheddriver; fi
+if [ -f misc.ml ]; then ocamlfind ocamlopt -w -a misc.mli misc.ml miscdriver.ml -o $T.miscdriver; mv -f $T.miscdriver /verif/build/bin/miscdriver; fi
